@@ -232,6 +232,8 @@ func (x *c12) checkCloserRun() {
 		bE1App = 1 << 29
 	)
 	sawGo, sawTAS, sawInner, sawCloserGo, sawStopClose, sawStopReg := false, false, false, false, false, false
+	sawUnkTAS := false
+	sawUnkLock := false
 	var resultChan ssa.Value
 
 	for m := 0; m <= 2; m++ {
@@ -314,11 +316,18 @@ func (x *c12) checkCloserRun() {
 			cl := &xClient{Lens: map[FieldID]int{x.cmClosers: n, x.rmRunners: m}, NoInline: func(f *ssa.Function) bool { return x.anchors[f] && f != fn }}
 			cl.OnBranch = func(st *xState, ifi *ssa.If, cond xVal, truth bool) bool {
 				if cond.Stale && st.Client&bOwn != 0 {
+					if sawUnkLock {
+						x.undecide("%s: a branch at %s depends on the closers read outside any identified section of the inner manager's lock, but the function locks a mutex the check cannot identify", fname, x.pos(ifi))
+						return false
+					}
 					x.bad("C12.K3-lock", cSnap, x.pos(ifi), "the branch at "+x.pos(ifi)+" depends on the closers (their number) as read at a moment when they were not yet frozen — neither under the inner manager's lock nor after closing was set inside / before a section of that lock: an AddCloser in between is accepted but its closer is not counted (never invoked, or the collection indexes out of range / waits for the wrong number of results)")
 					return false
 				}
 				if x.tasTried(cond, x.cmRunning) {
 					sawTAS = true
+				}
+				if x.unresolvedTAS(cond) {
+					sawUnkTAS = true
 				}
 				if x.tasWon(cond, truth, x.cmRunning) {
 					st.Client |= bOwn
@@ -431,7 +440,10 @@ func (x *c12) checkCloserRun() {
 			cl.OnInstr = func(st *xState, in ssa.Instruction, replay bool) bool {
 				if ci, ok := in.(ssa.CallInstruction); ok {
 					if _, isDefer := in.(*ssa.Defer); !isDefer || replay {
-						switch x.lockOp(ci) {
+						if x.unresolvedLockOp(st, ci) {
+							sawUnkLock = true
+						}
+						switch x.lockOp(st, ci) {
 						case 1:
 							st.Client |= bLocked
 							st.Client &^= bRead
@@ -461,7 +473,7 @@ func (x *c12) checkCloserRun() {
 				}
 				switch v := in.(type) {
 				case *ssa.Call:
-					if x.flagSetCall(v, x.cmClosing) {
+					if x.flagSetCall(st, v, x.cmClosing) {
 						st.Client |= bClosing
 						if st.Client&bLocked != 0 {
 							st.Client |= bFence
@@ -485,7 +497,9 @@ func (x *c12) checkCloserRun() {
 					}
 				case *ssa.Go:
 					sawGo = true
-					if st.Client&bOwn == 0 {
+					if st.Client&bOwn == 0 && sawUnkTAS {
+						x.undecide("%s: a goroutine is started at %s after a test-and-set of a flag the check cannot identify", fname, x.pos(in))
+					} else if st.Client&bOwn == 0 {
 						x.bad("C12.K0-once", cOnce, x.pos(in), "the goroutine started at "+x.pos(in)+" can be reached without this call's own test-and-set of the running flag having succeeded: a second Run, or a Run after Close, would start the runners and closers again")
 					}
 					w := x.workerOf(st, v, cache, classify)
@@ -519,6 +533,10 @@ func (x *c12) checkCloserRun() {
 						for _, tv := range w.TaskVals {
 							ev := evalSpawnerSide(st, tv, v)
 							if ev.Stale || (ev.Base != nil && ev.Base.Stale) {
+								if sawUnkLock {
+									x.undecide("%s: the closer goroutine started at %s uses closers read outside any identified lock section, but the function locks a mutex the check cannot identify", fname, x.pos(in))
+									return false
+								}
 								x.bad("C12.K3-lock", cSnap, x.pos(in), "the closer goroutine started at "+x.pos(in)+" takes its closer from a snapshot of the closers read when they were not yet frozen (not under the inner manager's lock, closing not yet set): a closer registered after that read is never invoked")
 								return false
 							}
@@ -632,7 +650,9 @@ func (x *c12) checkCloserRun() {
 	if !sawGo {
 		x.bad("C12.K0-once", cOnce, p.Pos(fn.Pos()), "Run no longer starts any goroutine")
 	}
-	if !sawTAS {
+	if !sawTAS && sawUnkTAS {
+		x.undecide("%s test-and-sets a flag the check cannot identify", fname)
+	} else if !sawTAS {
 		x.bad("C12.K0-once", cOnce, p.Pos(fn.Pos()), "Run no longer takes ownership with an atomic test-and-set of the running flag (CompareAndSwap(false,true) / Swap(true)): a second Run, or a Run racing Close, would run the manager again and close the shutdown channel twice")
 	}
 	if !sawInner {
@@ -724,28 +744,12 @@ func (x *c12) flagUnderLock(fn *ssa.Function, rule string, flag, data, lock Fiel
 		bLoadLock = 1 << 1 // most recent Load of the flag was made under the lock, not released since
 		bUnset    = 1 << 2 // …and was seen false
 	)
-	isLockOp := func(ci ssa.CallInstruction) int {
-		obj := calleeObj(ci)
-		if obj == nil || ci.Common().IsInvoke() || len(ci.Common().Args) == 0 {
-			return 0
-		}
-		if id, _, ok := fieldOfValue(ci.Common().Args[0]); !ok || id != lock {
-			return 0
-		}
-		switch obj.Name() {
-		case "Lock":
-			return 1
-		case "Unlock":
-			return -1
-		}
-		return 0
-	}
 	nW := 0
 	cl := &xClient{ParamLen: 2, NoInline: func(f *ssa.Function) bool { return noInline != nil && noInline(f) && f != fn }}
 	cl.OnInstr = func(st *xState, in ssa.Instruction, replay bool) bool {
 		if ci, ok := in.(ssa.CallInstruction); ok {
 			if _, isDefer := in.(*ssa.Defer); !isDefer || replay {
-				switch isLockOp(ci) {
+				switch x.lockOpOf(st, ci, lock) {
 				case 1:
 					st.Client |= bLocked
 				case -1:
@@ -754,7 +758,7 @@ func (x *c12) flagUnderLock(fn *ssa.Function, rule string, flag, data, lock Fiel
 			}
 		}
 		if call, ok := in.(*ssa.Call); ok {
-			if _, isLoad := x.flagCall(call, flag, "Load"); isLoad {
+			if _, isLoad := x.flagCall(st.fr, call, flag, "Load"); isLoad {
 				st.Client &^= bLoadLock | bUnset
 				if st.Client&bLocked != 0 {
 					st.Client |= bLoadLock
